@@ -1982,6 +1982,30 @@ class Exec:
             return
         if 'rust_dealloc' in base or 'no_alloc_shim' in base:
             return
+        if base in ('@bcmp', '@memcmp'):
+            n = argv[2]
+            lv = enum_values(n)
+            if lv is None:
+                raise Unsupported('%s with a length that is not a small set of constants' % base)
+            maxn = max(v for _, v in lv)
+            if maxn > 4096:
+                raise Unsupported('%s length too large' % base)
+            i8 = IntTy(8)
+            pa = [self.load(st, self.add64(argv[0], k), i8, 1) for k in range(maxn)]
+            pb = [self.load(st, self.add64(argv[1], k), i8, 1) for k in range(maxn)]
+            res = None
+            for g, v in lv:
+                r = 0
+                for k in reversed(range(v)):
+                    eq = _gn(sx.cmp_('eq', pa[k], pb[k], 8))
+                    if base == '@bcmp':
+                        r = ite(eq, r, 1, 32)
+                    else:
+                        lt = _gn(sx.cmp_('ult', pa[k], pb[k], 8))
+                        r = ite(eq, r, ite(lt, mask(32), 1, 32), 32)
+                res = r if res is None else ite(g, r, res, 32)
+            env[ins.res] = res
+            return
         if BOUND_PAT.search(base):
             self.res.bounds.append((st.g, base))
             st.g = False
@@ -2045,6 +2069,53 @@ class Exec:
                 env[ins.res] = ite(_gn(sx.cmp_('ult', r, x, bits)), mask(bits), r, bits)
             else:
                 env[ins.res] = ite(_gn(sx.cmp_('ult', x, y, bits)), 0, sx.bin_('sub', x, y, bits), bits)
+            return
+        m = re.match(r'@llvm\.(ctpop|ctlz|cttz)\.i(\d+)', n)
+        if m:
+            o, bits = m.group(1), int(m.group(2))
+            x = argv[0]
+            if o == 'ctpop':
+                r = 0
+                for k in range(bits):
+                    r = sx.bin_('add', r, sx.zext(sx.extract(x, k, k), 1, bits), bits)
+            else:
+                # number of leading / trailing zeros; `bits` when x == 0
+                r = bits
+                rng = range(bits) if o == 'ctlz' else reversed(range(bits))
+                for k in rng:
+                    cnt = (bits - 1 - k) if o == 'ctlz' else k
+                    r = ite(_gn(sx.extract(x, k, k)), cnt, r, bits)
+            env[ins.res] = r
+            return
+        m = re.match(r'@llvm\.abs\.i(\d+)', n)
+        if m:
+            bits = int(m.group(1))
+            x = argv[0]
+            env[ins.res] = ite(_gn(sx.cmp_('slt', x, 0, bits)), sx.bin_('sub', 0, x, bits), x, bits)
+            return
+        m = re.match(r'@llvm\.(fshl|fshr)\.i(\d+)', n)
+        if m and is_c(argv[2]):
+            o, bits = m.group(1), int(m.group(2))
+            sh = argv[2] % bits
+            a_, b_ = argv[0], argv[1]
+            if sh == 0:
+                env[ins.res] = a_ if o == 'fshl' else b_
+            else:
+                w = sx.concat(a_, bits, b_, bits)
+                lo = (bits - sh) if o == 'fshl' else sh
+                env[ins.res] = sx.extract(w, lo + bits - 1, lo)
+            return
+        m = re.match(r'@llvm\.bswap\.i(\d+)', n)
+        if m:
+            bits = int(m.group(1))
+            x = argv[0]
+            r = None
+            w = 0
+            for k in range(bits // 8):
+                byte = sx.extract(x, 8 * k + 7, 8 * k)
+                r = byte if r is None else sx.concat(r, w, byte, 8)
+                w += 8
+            env[ins.res] = r
             return
         if n.startswith('@llvm.expect'):
             env[ins.res] = argv[0]
